@@ -8,6 +8,7 @@ Pure list reasoning about `Spec.Shortest.parseDecText`; no buffers here.
 -/
 namespace Sonic.Proofs.Ftoa
 open Sonic.Spec Sonic.Spec.Shortest Sonic.Proofs.Itoa
+set_option linter.unusedSimpArgs false
 
 def AllDig (L : List Nat) : Prop := ∀ d ∈ L, 48 ≤ d ∧ d ≤ 57
 
@@ -192,5 +193,159 @@ theorem parse_sci (neg : Bool) (I F : List Nat) (hI : IntPart I) (hFd : AllDig F
       simp only [List.cons_append, List.head?_cons, List.tail_cons, if_true] at this ⊢
       simp [this, vals]
     simp only [reduceCtorEq, if_false, hf, parseExp_spec]
+
+
+/-! ## `mkDec` on zero-padded digits of a stripped significand -/
+
+theorem getLast?_append_ne_nil (A B : List Nat) (h : B ≠ []) : (A ++ B).getLast? = B.getLast? := by
+  cases B with
+  | nil => exact absurd rfl h
+  | cons b B' =>
+    rw [List.getLast?_append]
+    cases h' : (b :: B').getLast? with
+    | none => simp at h'
+    | some x => rfl
+
+theorem mkDec_spec (ip fp : List Nat) (E : Int) (m z k : Nat) (hm1 : 1 ≤ m) (hm : m % 10 ≠ 0)
+    (hall : ip ++ fp = List.replicate z 0 ++ vals (decimal m) ++ List.replicate k 0) :
+    mkDec ip fp E = (m, E - (fp.length : Int) + (k : Int)) := by
+  have hne := vals_ne_nil (decimal m) (decimal_ne_nil m)
+  have hlast : (List.replicate z 0 ++ vals (decimal m)).getLast? = some (48 + m % 10 - 48) := by
+    rw [getLast?_append_ne_nil _ _ hne]; exact vals_last _ _ (decimal_last' m)
+  have hst : stripTrailingZeros (ip ++ fp) = List.replicate z 0 ++ vals (decimal m) := by
+    rw [hall, strip_append_zeros, strip_of_last _ _ hlast (by omega)]
+  have hv : valOf (List.replicate z 0 ++ vals (decimal m)) = m := by
+    rw [valOf_zeros_append, valOf_vals_decimal]
+  unfold mkDec
+  simp only [hst, hv]
+  rw [if_neg (by omega)]
+  congr 2
+  rw [hall]
+  simp only [List.length_append, List.length_replicate]
+  omega
+
+theorem decimal_head_cons (m : Nat) (hm : 1 ≤ m) :
+    ∃ d rest, decimal m = d :: rest ∧ 49 ≤ d ∧ d ≤ 57 := by
+  have h1 := decimal_head m hm
+  have h2 := decimal_digits m
+  cases hd : decimal m with
+  | nil => exact absurd hd (decimal_ne_nil m)
+  | cons d rest =>
+    rw [hd] at h1 h2
+    have := h2 d (by simp)
+    refine ⟨d, rest, rfl, ?_, this.2⟩
+    simp at h1; omega
+
+/-- the reference rendering reads back exactly -/
+theorem refText_parse (neg : Bool) (m : Nat) (e : Int) (hm1 : 1 ≤ m) (hm : m % 10 ≠ 0) :
+    parseDecText (refText neg m e) = some (neg, m, e) := by
+  obtain ⟨d, rest, hD, hd1, hd2⟩ := decimal_head_cons m hm1
+  have hdig := allDig_decimal m
+  have hnd : (decimal m).length = rest.length + 1 := by rw [hD]; rfl
+  unfold refText refBody
+  simp only
+  by_cases c1 : ((decimal m).length : Int) + e - 1 < -6 ∨ ((decimal m).length : Int) + e - 1 > 20
+  · rw [if_pos c1]
+    -- scientific
+    have hI : IntPart [d] := ⟨by simp, by intro x hx; simp at hx; omega, Or.inl rfl⟩
+    have hF : AllDig rest := fun x hx => hdig x (by rw [hD]; simp [hx])
+    have hsgn : (if ((decimal m).length : Int) + e - 1 < 0 then (45 : Nat) else 43) =
+        (if decide (((decimal m).length : Int) + e - 1 < 0) then 45 else 43) := by simp
+    have := parse_sci neg [d] rest hI hF (decide (((decimal m).length : Int) + e - 1 < 0))
+      (((decimal m).length : Int) + e - 1).natAbs
+    rw [hD] at this ⊢
+    simp only [mant, List.cons_append, List.nil_append, List.append_assoc, decide_eq_true_eq] at this ⊢
+    rw [this]
+    have hE : (if ((d :: rest).length : Int) + e - 1 < 0 then
+        -((((d :: rest).length : Int) + e - 1).natAbs : Int) else ((((d :: rest).length : Int) + e - 1).natAbs : Int)) =
+        ((d :: rest).length : Int) + e - 1 := by split <;> omega
+    rw [hE, mkDec_spec _ _ _ m 0 0 hm1 hm (by rw [hD]; simp [vals])]
+    simp [vals]; omega
+  · rw [if_neg c1]
+    by_cases c2 : 0 ≤ e
+    · rw [if_pos c2]
+      have hI : IntPart (decimal m ++ List.replicate e.toNat 48) := by
+        refine ⟨by simp [decimal_ne_nil], allDig_append hdig (allDig_replicate _), Or.inr ?_⟩
+        rw [hD]; simp; omega
+      have := parse_plain neg _ [48] hI (by simp) (by intro x hx; simp at hx; omega)
+      rw [List.append_assoc (decimal m)] 
+      simp only [List.cons_append, List.nil_append, List.append_assoc] at this ⊢
+      rw [this, mkDec_spec _ _ _ m 0 (e.toNat + 1) hm1 hm (by
+        simp [vals_append, vals_replicate, vals, List.replicate_succ'])]
+      simp [vals]; omega
+    · rw [if_neg c2]
+      by_cases c3 : ((decimal m).length : Int) + e ≤ 0
+      · rw [if_pos c3]
+        have hI : IntPart [48] := ⟨by simp, by intro x hx; simp at hx; omega, Or.inl rfl⟩
+        have := parse_plain neg [48] (List.replicate (-(((decimal m).length : Int) + e)).toNat 48 ++ decimal m) hI
+          (by simp [decimal_ne_nil]) (allDig_append (allDig_replicate _) hdig)
+        simp only [List.cons_append, List.nil_append, List.append_assoc] at this ⊢
+        rw [this, mkDec_spec _ _ _ m ((-(((decimal m).length : Int) + e)).toNat + 1) 0 hm1 hm (by
+          simp [vals_append, vals_replicate, vals, List.replicate_succ])]
+        simp [vals]; omega
+      · rw [if_neg c3]
+        have hpt1 : 1 ≤ (((decimal m).length : Int) + e).toNat := by omega
+        have hpt2 : (((decimal m).length : Int) + e).toNat < (decimal m).length := by omega
+        have hpt0 : (((((decimal m).length : Int) + e).toNat : Nat) : Int) = ((decimal m).length : Int) + e := by
+          omega
+        generalize (((decimal m).length : Int) + e).toNat = pt at *
+        have hI : IntPart ((decimal m).take pt) := by
+          refine ⟨?_, fun x hx => hdig x (List.mem_of_mem_take hx), Or.inr ?_⟩
+          · rw [hD]; obtain ⟨k, rfl⟩ : ∃ k, pt = k + 1 := ⟨pt - 1, by omega⟩; simp
+          · rw [hD]; obtain ⟨k, rfl⟩ : ∃ k, pt = k + 1 := ⟨pt - 1, by omega⟩; simp; omega
+        have hF : (decimal m).drop pt ≠ [] := by
+          intro h; have := congrArg List.length h; simp at this; omega
+        have := parse_plain neg _ _ hI hF (fun x hx => hdig x (List.mem_of_mem_drop hx))
+        rw [this, mkDec_spec _ _ _ m 0 0 hm1 hm (by
+          rw [← vals_append, List.take_append_drop]; simp)]
+        simp [vals]; omega
+
+
+theorem refBody_hasFrac (m : Nat) (e : Int) : 46 ∈ refBody m e ∨ 101 ∈ refBody m e := by
+  unfold refBody
+  simp only
+  by_cases c1 : ((decimal m).length : Int) + e - 1 < -6 ∨ ((decimal m).length : Int) + e - 1 > 20
+  · rw [if_pos c1]; right; simp
+  · rw [if_neg c1]; left
+    by_cases c2 : 0 ≤ e
+    · rw [if_pos c2]; simp
+    · rw [if_neg c2]
+      by_cases c3 : ((decimal m).length : Int) + e ≤ 0
+      · rw [if_pos c3]; simp
+      · rw [if_neg c3]; simp
+
+theorem refText_hasFrac (neg : Bool) (m : Nat) (e : Int) : hasFracOrExp (refText neg m e) = true := by
+  unfold hasFracOrExp refText
+  rcases refBody_hasFrac m e with h | h
+  · simp [h]
+  · simp [h]
+
+theorem mant_length' (D : List Nat) (hD : D ≠ []) : (mant D).length ≤ D.length + 1 := by
+  cases D with
+  | nil => exact absurd rfl hD
+  | cons d rest => cases rest <;> simp [mant]
+
+theorem refText_length (neg : Bool) (m : Nat) (e : Int) (hnd : (decimal m).length ≤ 17)
+    (h1 : -1000 < ((decimal m).length : Int) + e - 1) (h2 : ((decimal m).length : Int) + e - 1 < 1000) :
+    (refText neg m e).length ≤ 25 := by
+  have hpos := decimal_length_pos m
+  have hsg : (if neg then [45] else ([] : List Nat)).length ≤ 1 := by cases neg <;> simp
+  have hma := mant_length' (decimal m) (decimal_ne_nil m)
+  have ha : (decimal (((decimal m).length : Int) + e - 1).natAbs).length ≤ 3 :=
+    decimal_length_le_of_lt 2 _ (by omega)
+  unfold refText refBody
+  simp only [List.length_append]
+  by_cases c1 : ((decimal m).length : Int) + e - 1 < -6 ∨ ((decimal m).length : Int) + e - 1 > 20
+  · rw [if_pos c1]; simp only [List.length_append, List.length_cons, List.length_nil]; omega
+  · rw [if_neg c1]
+    by_cases c2 : 0 ≤ e
+    · rw [if_pos c2]
+      simp only [List.length_append, List.length_cons, List.length_nil, List.length_replicate]; omega
+    · rw [if_neg c2]
+      by_cases c3 : ((decimal m).length : Int) + e ≤ 0
+      · rw [if_pos c3]
+        simp only [List.length_append, List.length_cons, List.length_nil, List.length_replicate]; omega
+      · rw [if_neg c3]
+        simp only [List.length_append, List.length_cons, List.length_take, List.length_drop]; omega
 
 end Sonic.Proofs.Ftoa
